@@ -15,8 +15,10 @@ Grammar (line oriented; '#' starts a comment at line start; '<<<' ... '>>>' deli
     ensures LABEL: EXPR
     assigns TARGETS
     frees TARGETS
+    assert continue|return|break K LABEL: EXPR   (assertion placed right before the K-th such statement of the function)
     loop K invariant LABEL: EXPR
     loop K decreases EXPR
+    loop K ghost STATEMENT;     ghost statement run at the start of every iteration of loop K
     loop K assigns TARGETS
     ghost-field RECORD_QNAME CTYPE NAME
   query NAME
@@ -38,6 +40,8 @@ Grammar (line oriented; '#' starts a comment at line start; '<<<' ... '>>>' deli
     object-bits N
     timeout SECONDS
     expect-unreachable      no canary of the target needs to be reachable (never used to hide things: listed in evidence)
+    checks none             switch cbmc's automatic safety checks (pointer, bounds, overflow ...) off for this query: only the
+                            contract obligations (pre/postconditions, invariants, assigns, spec assertions) are decided; stated in evidence
     plain                   no contract instrumentation at all: the harness (which must end in
                             __CPROVER_assert(0, "canary.harness.end")) is checked by cbmc with the given unwinding bounds
     kind proof|bounded      bounded queries are reported separately and never counted as proved
@@ -51,6 +55,7 @@ class FnSpec:
     def __init__(self, pattern):
         self.pattern = pattern
         self.requires = []; self.ensures = []; self.assigns = []; self.frees = []
+        self.asserts = {}
         self.loops = {}   # k -> {'invariant': [(label, expr)], 'decreases': expr, 'assigns': [..]}
         self.src = None
 
@@ -60,7 +65,7 @@ class Query:
         self.replace = []; self.selfstub = False; self.harness = ''; self.unwindset = []
         self.flags = []; self.object_bits = None; self.timeout = None; self.expect_unreachable = False
         self.kind = 'proof'; self.unit = None; self.vars = {}; self.args = None; self.entry = None
-        self.no_enforce = False; self.note = ''; self.pre_unwind = []; self.switch_slice = []; self.no_loop_contracts = False; self.plain = False; self.also = []
+        self.no_enforce = False; self.note = ''; self.pre_unwind = []; self.switch_slice = []; self.no_loop_contracts = False; self.plain = False; self.also = []; self.cflags = []; self.checks = 'default'
 
 class UnitSpec:
     def __init__(self, name):
@@ -119,7 +124,8 @@ def parse_file(path):
                 elif key == 'ghost-init':
                     cur.ghost_init += raw_block(rest.split('<<<', 1)[1]) + '\n'
                 elif key == 'ghost-field':
-                    q, cty, nm = rest.rsplit(' ', 2)[0], rest.rsplit(' ', 2)[1], rest.rsplit(' ', 2)[2]
+                    parts = rest.split()
+                    q, nm, cty = parts[0], parts[-1], ' '.join(parts[1:-1])
                     cur.ghost_fields.setdefault(q.strip(), []).append((nm, cty))
                 else: raise SpecError('unknown unit key %s' % key)
             elif isinstance(cur, FnSpec):
@@ -128,12 +134,18 @@ def parse_file(path):
                     lab, _, e = rest.partition(':'); cur.ensures.append((lab.strip(), e.strip()))
                 elif key == 'assigns': cur.assigns.append(rest)
                 elif key == 'frees': cur.frees.append(rest)
+                elif key == 'assert':
+                    # assert <continue|return|break> <ordinal> <label>: <expr>   (checked right before that statement)
+                    kind, k, r2 = rest.split(' ', 2)
+                    lab, _, e = r2.partition(':')
+                    cur.asserts.setdefault((kind, int(k)), []).append((lab.strip(), e.strip()))
                 elif key == 'loop':
                     k, what, r2 = rest.split(' ', 2)
                     L = cur.loops.setdefault(int(k), {'invariant': [], 'decreases': None, 'assigns': []})
                     if what == 'invariant':
                         lab, _, e = r2.partition(':'); L['invariant'].append((lab.strip(), e.strip()))
                     elif what == 'decreases': L['decreases'] = r2
+                    elif what == 'ghost': L.setdefault('ghost', []).append(r2)
                     elif what == 'assigns': L['assigns'].append(r2)
                     else: raise SpecError('loop clause %s' % what)
                 else: raise SpecError('unknown function key %s' % key)
@@ -163,6 +175,8 @@ def parse_file(path):
                 elif key == 'no-enforce': cur.no_enforce = True
                 elif key == 'no-loop-contracts': cur.no_loop_contracts = True
                 elif key == 'plain': cur.plain = True
+                elif key == 'checks': cur.checks = rest.strip()
+                elif key == 'cflag': cur.cflags += rest.split()
                 elif key == 'also': cur.also += rest.split()
                 elif key == 'note': cur.note = rest
                 else: raise SpecError('unknown query key %s' % key)
@@ -222,6 +236,22 @@ class SpecHooks:
             for (lab, e) in L['invariant']:
                 out.append('__CPROVER_loop_invariant(%s) /*@label %s#loop%d.%s */' % (e, cname, k, lab))
             if L['decreases']: out.append('__CPROVER_decreases(%s)' % L['decreases'])
+        return out
+
+    def stmt_asserts(self, cname, kind, k):
+        out = []
+        for f in self.specs_for(cname):
+            for (lab, e) in f.asserts.get((kind, k), []):
+                out.append('__CPROVER_assert(%s, "spec.%s#%s");' % (e, cname, lab))
+        return out
+
+    def loop_ghost(self, cname, k):
+        """ghost statements executed at the start of every iteration (may only write ghost state; instantiations of
+        quantified preconditions appear here as __CPROVER_assume and are listed in evidence)"""
+        out = []
+        for f in self.specs_for(cname):
+            L = f.loops.get(k)
+            if L: out += L.get('ghost', [])
         return out
 
     def has_loop_contract(self, cname, k):
